@@ -255,3 +255,9 @@ Example C11_char_escapes_example :       (* n t r backslash quote double-quote a
   map (fun e => const_value_of_line (StringEscapes.esc_char_line e)) [110; 116; 114; 92; 39; 34; 97; 98; 102; 118; 48; 55] =
     map Some [10; 9; 13; 92; 39; 34; 7; 8; 12; 11; 0; 7].
 Proof. vm_compute. split; reflexivity. Qed.
+
+(* ---- resolve_register_aliases as the source has it (Gen/Guards.v; Proofs/Guards.v): the item is rebuilt from ALL its fields in order,
+   only a register field whose value is a constant name changes -- the immediate, is_auipc_jump, aq / rl and the fence sets survive *)
+Theorem C11_register_aliases_from_source : Proofs.Guards.register_aliases_from_source_stmt.
+Proof. exact Proofs.Guards.register_aliases_from_source. Qed.
+Print Assumptions C11_register_aliases_from_source.
